@@ -15,6 +15,7 @@ import (
 	"bytes"
 	"crypto/aes"
 	"crypto/cipher"
+	"crypto/ecdsa"
 	"crypto/sha256"
 	"encoding/hex"
 	"encoding/json"
@@ -25,6 +26,8 @@ import (
 	"path/filepath"
 	"sort"
 	"strings"
+	"sync"
+	"time"
 
 	"github.com/gauss-project/aurorafs/pkg/crypto"
 	"github.com/gauss-project/aurorafs/pkg/keystore"
@@ -1068,6 +1071,148 @@ func boundaryCase(r *hx.Rand) jcase {
 	return jc
 }
 
+// ---------------------------------------------------------------- concurrent first use
+
+type concRes struct {
+	pw  string
+	out outcome
+}
+
+// concRound: n goroutines released together call Key(name, pw_i) on a name nobody has used;
+// then one more Key with the winner's password. Oracle: every caller that got a key got the
+// SAME key, at most one saw created=true, callers with another password than the stored one
+// are rejected as invalid, and the later call returns that key.
+func concRound(run *hx.Run, store string, keyFn func(name, pw string) outcome, name string, pws []string) {
+	n := len(pws)
+	res := make([]concRes, n)
+	start := make(chan struct{})
+	var wg sync.WaitGroup
+	for i := 0; i < n; i++ {
+		wg.Add(1)
+		go func(i int) {
+			defer wg.Done()
+			<-start
+			res[i] = concRes{pws[i], keyFn(name, pws[i])}
+		}(i)
+	}
+	close(start)
+	done := make(chan struct{})
+	go func() { wg.Wait(); close(done) }()
+	select {
+	case <-done:
+	case <-time.After(60 * time.Second):
+		run.Violate(hx.Violation{Sig: store + ":concurrent-first-use:hang", Detail: "8 concurrent Key calls did not return within 60 s", Case: jcase{Store: store + "-conc"}})
+		return
+	}
+	jc := jcase{Store: store + "-conc"}
+	for _, p := range pws {
+		jc.Ops = append(jc.Ops, jop{Kind: "key", Name: hs(name), Pw: hs(p)})
+	}
+	viol := func(sig, detail string) {
+		run.Violate(hx.Violation{Sig: store + ":concurrent-first-use:" + sig, Detail: detail, Case: jc})
+	}
+	run.OracleChecked(1)
+	var winKey []byte
+	winPw := ""
+	created := 0
+	var steps []string
+	for _, r := range res {
+		run.Hist(store + ".conc." + r.out.kind)
+		var nk []byte
+		if r.out.kind == "key" {
+			if r.out.created {
+				created++
+				nk = r.out.key
+			}
+			if winKey == nil {
+				winKey, winPw = r.out.key, r.pw
+			} else if !bytes.Equal(winKey, r.out.key) {
+				viol("different-keys", fmt.Sprintf("two callers of Key(%q) were handed different keys %x.. and %x..", name, winKey[:4], r.out.key[:4]))
+			}
+		}
+		steps = append(steps, hx.CoqTuple(hx.CoqBytes([]byte(r.pw)), coqScalar(nk), coqOut(r.out)))
+	}
+	if created > 1 {
+		viol("more-than-one-created", fmt.Sprintf("%d callers saw created=true", created))
+	}
+	if winKey == nil {
+		viol("nobody-got-a-key", "no caller of a first-time Key succeeded")
+		return
+	}
+	if created == 0 {
+		viol("nobody-created", "callers got a key but none saw created=true")
+	}
+	// the stored password is the one under which the later call succeeds
+	later := keyFn(name, winPw)
+	if later.kind != "key" || later.created || !bytes.Equal(later.key, winKey) {
+		viol("later-key-differs", fmt.Sprintf("a later Key(%q) with the winner's password: %s created=%v, not the key handed out before", name, later.kind, later.created))
+	}
+	for _, r := range res {
+		if r.pw != winPw && r.out.kind != "invalid" && r.out.kind != "key" {
+			viol("other-password-not-invalid", "caller with another password: "+r.out.kind)
+		}
+		if r.pw == winPw && r.out.kind != "key" {
+			viol("same-password-rejected", "caller with the stored password: "+r.out.kind)
+		}
+	}
+	// callers with the other password that were ALSO handed a key are covered by different-keys /
+	// more-than-one-created, except when they got the very same key: accepted with a wrong password
+	for _, r := range res {
+		if r.pw != winPw && r.out.kind == "key" && bytes.Equal(r.out.key, winKey) {
+			viol("other-password-accepted", fmt.Sprintf("caller with password %q got the key stored under %q", r.pw, winPw))
+		}
+	}
+	run.AddCase(hx.CoqApp("CConc", hx.CoqList(steps, "bytes * N * oout"), coqOut(later)), jc,
+		fmt.Sprintf("%s-conc|%s|%v", store, name, pws), true)
+}
+
+func concPws(i int) []string {
+	pws := make([]string, 8)
+	for j := range pws {
+		pws[j] = "pw"
+		if i%2 == 1 && j%2 == 1 {
+			pws[j] = "other"
+		}
+	}
+	return pws
+}
+
+func runConcurrent(run *hx.Run) {
+	toOutcome := func(k interface{ Key(string, string) (*ecdsa.PrivateKey, bool, error) }) func(string, string) outcome {
+		return func(name, pw string) (out outcome) {
+			panicked, _ := hx.Guard(func() {
+				pk, created, err := k.Key(name, pw)
+				if err != nil {
+					out = outcome{kind: classifyErr(err)}
+				} else {
+					out = outcome{kind: "key", key: crypto.EncodeSecp256k1PrivateKey(pk), created: created}
+				}
+			})
+			if panicked {
+				out = outcome{kind: "panic"}
+			}
+			return
+		}
+	}
+	// mem: 200 rounds, bounded time
+	ms := mem.New()
+	deadline := time.Now().Add(20 * time.Second)
+	for i := 0; i < run.N(200, 2000) && time.Now().Before(deadline); i++ {
+		concRound(run, "mem", toOutcome(ms), fmt.Sprintf("c%d", i), concPws(i))
+	}
+	// file: every Key costs one scrypt (~80 ms); fewer rounds
+	sandbox, err := os.MkdirTemp(os.Getenv("VERIF_WORKDIR"), "ksc")
+	if err != nil {
+		panic(err)
+	}
+	defer os.RemoveAll(sandbox)
+	fsvc := file.New(filepath.Join(sandbox, "keys"))
+	deadline = time.Now().Add(time.Duration(run.N(25, 120)) * time.Second)
+	for i := 0; i < run.N(10, 60) && time.Now().Before(deadline); i++ {
+		concRound(run, "file", toOutcome(fsvc), fmt.Sprintf("c%d", i), concPws(i))
+	}
+}
+
 func main() {
 	run := hx.Start("C36", "Aurora.C36.Corr",
 		"histories of Key/Exists/ExportKey/ImportKey/ImportPrivateKey on a fresh keystore (file: temp dir; mem): names incl. empty, unicode, path aliases, NUL, NAME_MAX boundary, file/directory conflicts; passwords incl. empty, unicode, non-UTF-8, trailing NUL, >64 bytes; imports of own exports and of 20 kinds of crafted key files; non-trivial = history in which an existing key is asked for again (right or wrong password) or an import succeeds; distinct by the op list")
@@ -1078,7 +1223,9 @@ func main() {
 		if err := run.ReadReplay(&jc); err != nil {
 			panic(err)
 		}
-		if jc.Store == "mem" {
+		if strings.HasSuffix(jc.Store, "-conc") {
+			runConcurrent(run)
+		} else if jc.Store == "mem" {
 			runMem(run, &jc, r, 0)
 		} else {
 			runFile(run, &jc, nil)
@@ -1112,6 +1259,7 @@ func main() {
 		jc := jcase{Store: "mem"}
 		runMem(run, &jc, r.Fork(uint64(1000+h)), 5+r.Intn(25))
 	}
+	runConcurrent(run)
 	run.SetExtra("scrypt_calls_by_harness", scryptCalls)
 	run.Finish()
 }
